@@ -1591,7 +1591,38 @@ class SxStr:
             return _mkstr([first] + ["0"] * (width - len(si)) + si[1:])
         return _mkstr(["0"] * (width - len(si)) + si)
 
+    _WS = " \t\n\r\x0b\x0c\x1c\x1d\x1e\x1f\x85\xa0\u1680\u2000\u2001\u2002\u2003\u2004\u2005\u2006\u2007\u2008\u2009\u200a\u2028\u2029\u202f\u205f\u3000"
+
+    def _split_ws(s):
+        """str.split() without arguments: runs of whitespace separate, no empty strings"""
+        parts, cur = [], []
+        for i in s.items:
+            if isinstance(i, (Numeral, WordItem)):
+                cur.append(i)
+                continue
+            if isinstance(i, str):
+                isws = i.isspace()
+            else:
+                poss = i.possible()
+                if poss is not None and not any(ch.isspace() for ch in poss):
+                    isws = False
+                elif poss is None and i.idx.hi is not None and i.idx.hi < 9:
+                    isws = False
+                else:
+                    isws = bool(_char_in(i, SxStr._WS))
+            if isws:
+                if cur:
+                    parts.append(cur)
+                    cur = []
+            else:
+                cur.append(i)
+        if cur:
+            parts.append(cur)
+        return [_mkstr(p) for p in parts]
+
     def split(s, sep=None, maxsplit=-1):
+        if sep is None and maxsplit == -1:
+            return s._split_ws()
         if sep is None or maxsplit != -1 or not isinstance(sep, str) or len(sep) != 1:
             raise Unsupported("split variant")
         parts = [[]]
